@@ -65,8 +65,11 @@ def nests_value(tbl):
     return ("st", "Nests", {"all": tbl, "phantom": U.term("PhantomData")})
 
 
-def judge(R, rid, key, got, want, sp=None, detail=None, show_want=None):
+def judge(R, rid, key, got, want, sp=None, detail=None, show_want=None, ev=None):
     """instance `got == want`; an uninterpreted result is reported as unrecognised construct (fail closed)."""
+    if got != want and ev is not None and ev.unknown:
+        R.unrecognised(rid, key, "abstract evaluation met a construct it does not model: %s" % "; ".join(ev.unknown)[:300], sp)
+        return False
     if got == want:
         return R.inst(rid, key, True, sp=sp, detail=detail, expect=show_want or U.show(want), got=U.show(got))
     s = U.has_sym(got)
@@ -224,33 +227,44 @@ def roles(c):
 
 
 # ------------------------------------------------------------------------------------------------- R14.1
+TABLE_TY = re.compile(r"Map<duke::tree::class::ObjClassName, dukenest::nest::Nest(, [^<>]*)?>$")
+
+
 def jar_anchor(c):
-    """(nest_jar body, filter mcall, id of the filtered table local, ctor call of the jar-side remapper)"""
+    """(nest_jar implementation, region that builds the filtered nests table, ids of the locals holding that table,
+    ctor call of the jar-side remapper).  The region is ("expr", initialiser) for `let t = nests.all...filter(..).collect()`
+    or ("loop", for-node) for `let mut t = IndexMap::new(); for .. in nests.all { .. t.insert(..) }`."""
     nj = impl_of(c, "nest_jar")
     if not nj:
         return None, None, None, None
+    body = nj["body"]
     pids = H.param_ids(nj)
     nests_pid = None
     for i, t in enumerate(nj.get("inputs") or []):
         if t.startswith("dukenest::nest::Nests") and i < len(pids):
             nests_pid = pids[i]
-    filt = None
-    for n in H.walk(nj["body"]):
-        if n.get("k") == "mcall" and n["name"] == "filter":
-            rr = H.recv_root(n["recv"])
-            if rr and H.origin_local(nj["body"], rr[0]) == nests_pid and H.peel(n["args"][0]).get("k") == "closure":
-                filt = n if filt is None else filt
-    tid = None
-    if filt is not None:
-        for n in H.walk(nj["body"]):
-            if n.get("k") == "let" and "init" in n and n["pat"].get("k") == "bind" and any(x is filt for x in H.walk(n["init"])):
-                tid = n["pat"]["id"]
+    lets = [n for n in H.walk(body, into_closures=False) if n.get("k") == "let" and "init" in n and n["pat"].get("k") == "bind"
+            and TABLE_TY.search(n["pat"].get("ty") or _local_ty(body, n["pat"]["id"]) or "")]
+    tids = {n["pat"]["id"] for n in lets}
+    region = None
+    for n in lets:
+        from_nests = any(H.local_of(x) and H.origin_local(body, H.local_of(x)[0]) == nests_pid for x in H.walk(n["init"]) if x.get("k") == "path")
+        if from_nests and region is None:
+            region = ("expr", n["init"])
+    if region is None and tids:
+        for n in H.walk(body, into_closures=False):
+            if n.get("k") == "for" and any(x.get("k") == "mcall" and x["name"] == "insert" and H.local_of(x["recv"]) and H.local_of(x["recv"])[0] in tids for x in H.walk(n["body"])):
+                rr = H.recv_root(n["iter"])
+                if rr and H.origin_local(body, rr[0]) == nests_pid and region is None:
+                    region = ("loop", n)
     remapper_adts = {(b.get("impl_ty") or "").split("<")[0] for b in c.bodies if b.get("name") == "map_class_fail"}
     ctor = None
-    for n in H.walk(nj["body"]):
+    for n in H.walk(body):
         if n.get("k") == "call" and (n.get("callee") or {}).get("dk", "").startswith("Ctor") and (n["callee"].get("adt") or "") in remapper_adts:
             ctor = n
-    return nj, filt, tid, ctor
+    if region is not None:
+        region = region + (nests_pid,)
+    return nj, region, (tids or None), ctor
 
 
 def r14_1(ctx, R, rl):
@@ -262,8 +276,8 @@ def r14_1(ctx, R, rl):
                 "by the un-nested class name; io::read_line and NestTypeA::new classify inner names identically "
                 "(all digits -> anonymous, leading digit -> local, else inner)")
     R.anchor(rid, "fn duke ObjClassName::from_inner_class", ctx["fic"])
-    nj, filt, tid, ctor = jar_anchor(c)
-    ok_j = (R.anchor(rid, "fn nester_jar::nest_jar", nj) and R.anchor(rid, "filtered nests table (let .. = nests.all...filter(..).collect())", tid is not None, sp=nj and nj["sp"])
+    nj, region, tid, ctor = jar_anchor(c)
+    ok_j = (R.anchor(rid, "implementation of dukenest::nest_jar", nj) and R.anchor(rid, "local holding the filtered nests table", tid is not None, sp=nj and nj["sp"])
             and R.anchor(rid, "construction of the jar-side ARemapper from the rename table", ctor is not None and len(ctor["args"]) == 1, sp=nj and nj["sp"]))
     new = ctx["roles"]["translator_new"]
     ok_m = R.anchor(rid, "constructor (nests, flag) -> table-backed ARemapper used by apply_/undo_nests_to_mappings", new)
@@ -274,8 +288,8 @@ def r14_1(ctx, R, rl):
         jar_tbl = None
         if ok_j:
             ev = U.Ev(inline=inline)
-            jar_tbl = eval_with_lets(ev, nj["body"], ctor["args"][0], {tid: U.table(pairs)})
-            judge(R, rid, "jar:rename-table:depth-%d" % depth, jar_tbl, want_tbl, sp=ctor["sp"],
+            jar_tbl = eval_with_lets(ev, nj["body"], ctor["args"][0], {t_: U.table(pairs) for t_ in tid})
+            judge(R, rid, "jar:rename-table:depth-%d" % depth, jar_tbl, want_tbl, sp=ctor["sp"], ev=ev,
                   detail="old name -> new name for the chain Top <- K1 <- .. <- K%d with inner names n1..n%d" % (depth, depth))
         if ok_m:
             got = {}
@@ -283,7 +297,7 @@ def r14_1(ctx, R, rl):
                 ev = U.Ev(inline=inline)
                 r = ev.run_fn(new, [nests_value(U.table(pairs)), ("b", flag)])
                 got[flag] = r[2][0] if r[0] == "v" and len(r[2]) == 1 else r
-                judge(R, rid, "mappings:%s-table:depth-%d" % ("apply" if flag else "undo", depth), got[flag], want_tbl if flag else want_inv, sp=new["sp"],
+                judge(R, rid, "mappings:%s-table:depth-%d" % ("apply" if flag else "undo", depth), got[flag], want_tbl if flag else want_inv, sp=new["sp"], ev=ev,
                       detail="translation table of MyRemapper::new(nests, %s)" % str(flag).lower())
             if jar_tbl is not None:
                 judge(R, rid, "agree:jar=mappings:depth-%d" % depth, jar_tbl, got[True], sp=new["sp"],
@@ -338,11 +352,13 @@ def r14_2(ctx, R):
                 "method given && enclosing class originally in the jar && its method set contains it; an applied nest whose enclosing "
                 "class is missing creates that class under the enclosing name and registers it as present; the jar index is keyed by "
                 "the class names read from the jar")
-    nj, filt, tid, ctor = jar_anchor(c)
-    if not (R.anchor(rid, "fn nester_jar::nest_jar", nj) and R.anchor(rid, "nests.all...filter(closure)", filt is not None, sp=nj and nj["sp"])):
+    nj, region, tid, ctor = jar_anchor(c)
+    if not (R.anchor(rid, "implementation of dukenest::nest_jar", nj)
+            and R.anchor(rid, "construction of the filtered nests table from nests.all (filter(..).collect() or a loop inserting into it)", region is not None, sp=nj and nj["sp"])):
         return
-    clo = H.peel(filt["args"][0])
-    free = U.free_locals(clo)
+    rkind, rnode, nests_pid = region
+    clo = rnode
+    free = U.free_locals(rnode)
     role = {}
     for lid, (nm, ty) in free.items():
         if re.search(r"Set<duke::tree::class::ObjClassName>$", ty):
@@ -351,9 +367,9 @@ def r14_2(ctx, R):
             role.setdefault("methods", []).append(lid)
         elif re.search(r"Map<duke::tree::class::ObjClassName, duke::tree::class::ClassFile>$", ty):
             role.setdefault("created", []).append(lid)
-    if not (R.anchor(rid, "captured set of class names present in the jar", len(role.get("present", [])) == 1, sp=clo["sp"])
-            and R.anchor(rid, "captured map class name -> declared methods", len(role.get("methods", [])) == 1, sp=clo["sp"])
-            and R.anchor(rid, "captured map of created classes", len(role.get("created", [])) == 1, sp=clo["sp"])):
+    if not (R.anchor(rid, "set of class names present in the jar (used by the filter)", len(role.get("present", [])) == 1, sp=clo["sp"])
+            and R.anchor(rid, "map class name -> declared methods (used by the filter)", len(role.get("methods", [])) == 1, sp=clo["sp"])
+            and R.anchor(rid, "map of created classes (used by the filter)", len(role.get("created", [])) == 1, sp=clo["sp"])):
         return
     P, M, Cn = role["present"][0], role["methods"][0], role["created"][0]
     # which argument of ClassFile::new is the class name
@@ -394,10 +410,15 @@ def r14_2(ctx, R):
                         if encl == "in-jar":
                             mt.append((U.name("E"), U.tset([U.name("m")] if meth == "declared" else [U.name("other")])))
                         created = U.table([(U.name("E"), U.term("earlier-created"))] if encl == "created-earlier" else [])
-                        env = {P: present, M: U.table(mt), Cn: created}
+                        env = {P: present, M: U.table(mt), Cn: created, nests_pid: nests_value(U.table([(U.name("K"), nest)]))}
+                        for t_ in tid:
+                            env[t_] = U.table([])
                         ev = U.Ev(inline=inline, cls={"I": KIND_CLS[kind]}, parse={"I": idx_vals.get(idx, T.V("Err", U.term("ParseIntError")))},
                                   hooks={"new": hook_new})
-                        got = ev.apply(("closure", clo, env), [("t", [U.name("K"), nest])])
+                        res = ev.run_expr(rnode, env)
+                        if rkind == "loop":
+                            res = next((env[t_] for t_ in tid if env[t_][0] == "tbl" and env[t_][1]), U.table([]))
+                        got = ("b", U.key_of(U.name("K")) in res[1]) if res[0] == "tbl" and set(res[1]) <= {U.key_of(U.name("K"))} else res
                         ptypes.update(ev.parse_types)
                         hem = meth == "declared" and encl == "in-jar"
                         rule = {"Anonymous": idx in ("1", "max"), "Inner": not hem, "Local": hem}[kind]
@@ -493,7 +514,7 @@ def r14_3(ctx, R):
         n_inst += 1
         other = [e for e in asg if e[1] != em_target]
         R.inst(rid, "attr:%s:no-other-assignment" % kind, not other, sp=fn["sp"], got=[(e[1], U.show(e[2])) for e in other], nontrivial=False)
-        ic = [e for e in psh if e[1] == "%s.inner_classes" % cf_name and e[2][0] == "st" and e[2][1] == "InnerClass"]
+        ic = [e for e in psh if e[3] == U.term("vec-inside", cfv[2]["inner_classes"]) and e[2][0] == "st" and e[2][1] == "InnerClass"]
         if not R.inst(rid, "attr:%s:one-InnerClasses-entry" % kind, len(ic) == 1 and len(psh) == 1, sp=fn["sp"],
                       got=[(e[1], U.show(e[2])[:200]) for e in psh], expect="exactly one push of an InnerClass onto %s.inner_classes" % cf_name):
             continue
@@ -980,8 +1001,8 @@ def r14_6(ctx, R):
                 "only then, and only under the remap flag, dukebox::remap::remap_class with the remapper built from the rename table; "
                 "under the flag the entry name goes through remap_jar_entry_name[_java] with the same remapper, otherwise it is kept; "
                 "created enclosing classes are emitted")
-    nj, filt, tid, ctor = jar_anchor(c)
-    if not (R.anchor(rid, "fn nester_jar::nest_jar", nj) and R.anchor(rid, "filtered nests table", tid is not None) and R.anchor(rid, "jar-side remapper", ctor is not None)):
+    nj, region, tid, ctor = jar_anchor(c)
+    if not (R.anchor(rid, "implementation of dukenest::nest_jar", nj) and R.anchor(rid, "filtered nests table", tid is not None) and R.anchor(rid, "jar-side remapper", ctor is not None)):
         return
     body = nj["body"]
     pids = H.param_ids(nj)
@@ -1023,7 +1044,7 @@ def r14_6(ctx, R):
         return out
 
     def on_filtered_table(sc):
-        return t_idx < len(sc["args"]) and H.local_of(sc["args"][t_idx]) and H.local_of(sc["args"][t_idx])[0] == tid
+        return t_idx < len(sc["args"]) and H.local_of(sc["args"][t_idx]) and H.local_of(sc["args"][t_idx])[0] in tid
 
     def uses_remapper(call):
         return any(H.local_of(a) and H.local_of(a)[0] in remapper_ids for a in H.call_args(call))
